@@ -346,6 +346,7 @@ class QvmCpu:
             self.trapped_addr = self.prev_pc
             self._trap(e.trap_code, **e.trap_kwargs)
         except ZeroDivisionError:
+            self.trapped_addr = self.prev_pc
             self._trap(TrapCode.DIVISION_BY_ZERO)
 
         if not self.halted and self.pc >= len(self.module.code):
